@@ -39,6 +39,10 @@ def universes():
     u["tag_len480"] = make_event("A", 1, 107, [["t", "x" * 480]], "")
     u["tag_len2000"] = make_event("A", 1, 108, [["r", "y" * 2000]], "")
     u["tag_longname"] = make_event("A", 1, 109, [["client", "z" * 600]], "")
+    # few characters, many bytes (the LMDB key limit counts bytes): 200 and 256 three-byte characters, 255 two-byte ones
+    u["tag_cjk200"] = make_event("A", 1, 120, [["t", "\u4e2d" * 200]], "")
+    u["tag_cjk256"] = make_event("A", 1, 121, [["e", "\u4e2d" * 256]], "")
+    u["tag_latin255"] = make_event("A", 1, 122, [["t", "\u00e9" * 255]], "")
     u["tag_nonstr"] = make_event("A", 1, 110, [["t", 5], ["e", None]], "")
     # tag items the SQL tag table cannot bind (nested value, object, integer beyond 64 bits): accepted or refused, but consistently
     u["tag_nested"] = make_event("A", 1, 111, [["t", ["x"]], ["e", "ab" * 32]], "")
